@@ -113,6 +113,20 @@ def run(pid, cfg, tier, seed, workdir, already_broken):
                                       "cls": None,
                                       "replay": {"program": "cd /verif/harness && cargo build --offline -p late && target/debug/late %s" % " ".join(args),
                                                  "schedule": [], "policy": "os-threads", "impl_trace": txt.splitlines()[-40:], "model_trace": []}})
+    # weak-memory executions: Miri litmus programs on the crate as users get it (no hooks); only when the
+    # ordering obligations no longer check (search for a failing input) or in the thorough tier
+    if cfg.get("litmus") and (already_broken or tier == "thorough"):
+        env = dict(os.environ, LITMUS_TIMEOUT="150")
+        try:
+            p = subprocess.run([os.path.join(ROOT, "harness/litmus/run.sh")], stdout=subprocess.PIPE, stderr=subprocess.STDOUT, timeout=2400, env=env)
+            ltxt = p.stdout.decode(errors="replace")
+        except (subprocess.TimeoutExpired, OSError) as ex:
+            ltxt = "FAIL litmus runner: %r" % (ex,)
+        for l in ltxt.splitlines():
+            if l.startswith("FAIL"):
+                late_findings.append({"message": "Miri reports undefined behaviour (data race / use after free) in a litmus program on the unmodified crate API: " + l[:600], "cls": None,
+                                      "replay": {"program": "cd /verif && harness/litmus/run.sh " + (l.split()[1] if len(l.split()) > 1 else ""), "schedule": [], "policy": "miri seeds in the message",
+                                                 "impl_trace": ltxt.splitlines()[-20:], "model_trace": []}})
     # adversary for wait-freedom: a writer completes a store between the reader's read and its confirmation, every round
     for (scen, rd, wr) in cfg.get("chase", []):
         for sp in _scen_paths([scen]):
